@@ -357,8 +357,18 @@ static void hullFloatCase(const std::string& id, const std::string& kind, const 
 static void hullFloatCases(int n) {
   for (int i = 0; i < n; i++) {
     std::vector<vec3> pts; std::string kind; Manifold h;
-    int which = i % 5;
-    if (which == 0) { kind = "random"; int m = 8 + (int)R->below(400); double s = pow(10, urange(-3, 3)); for (int j = 0; j < m; j++) pts.push_back(vec3(urange(-s, s), urange(-s, s), urange(-s, s))); h = Manifold::Hull(pts); }
+    int which = i % 7;
+    if (which == 5) {   // slender but three-dimensional: thousands of epsilons thick, aspect 1e2..1e5 (the collinear-fallback decision of setupInitialTetrahedron)
+      kind = "needle"; int m = 8 + (int)R->below(60); double len = pow(10, urange(-1, 2)), a = len * pow(10, urange(-5, -2));
+      double c1 = cos(urange(0, 3.14)), s1 = sqrt(1 - c1 * c1), c2 = cos(urange(0, 3.14)), s2 = sqrt(1 - c2 * c2); bool axis = R->below(3) == 0;
+      for (int j = 0; j < m; j++) { double x = urange(0, len), y = urange(-a, a), z = urange(-a, a); if (j < 8) { x = (j & 1) ? len : 0; y = (j & 2) ? a : -a; z = (j & 4) ? a : -a; }
+        if (axis) pts.push_back(vec3(x, y, z)); else { double x1 = c1 * x - s1 * y, y1 = s1 * x + c1 * y; pts.push_back(vec3(x1, c2 * y1 - s2 * z, s2 * y1 + c2 * z)); } }
+      h = Manifold::Hull(pts); }
+    else if (which == 6) {   // small absolute scale, moderate aspect: thresholds that mix epsilon and epsilon^2 are not scale-invariant
+      kind = "tiny"; int m = 8 + (int)R->below(60); double s = pow(10, urange(-9, -4)), ax = urange(2, 20), ay = urange(1, 3);
+      for (int j = 0; j < m; j++) { double x = urange(-1, 1), y = urange(-1, 1), z = urange(-1, 1); if (j < 8) { x = (j & 1) ? 1 : -1; y = (j & 2) ? 1 : -1; z = (j & 4) ? 1 : -1; } pts.push_back(vec3(s * ax * x, s * ay * y, s * z)); }
+      h = Manifold::Hull(pts); }
+    else if (which == 0) { kind = "random"; int m = 8 + (int)R->below(400); double s = pow(10, urange(-3, 3)); for (int j = 0; j < m; j++) pts.push_back(vec3(urange(-s, s), urange(-s, s), urange(-s, s))); h = Manifold::Hull(pts); }
     else if (which == 1) { kind = "onsphere"; int m = 8 + (int)R->below(400); double s = pow(10, urange(-2, 2)); for (int j = 0; j < m; j++) { double z = urange(-1, 1), ph = urange(0, 6.283185307179586), q = sqrt(1 - z * z); pts.push_back(vec3(s * q * cos(ph), s * q * sin(ph), s * z)); } h = Manifold::Hull(pts); }
     else if (which == 2) { kind = "clustered"; int kc = 4 + (int)R->below(5); std::vector<vec3> c; for (int j = 0; j < kc; j++) c.push_back(vec3(urange(-5, 5), urange(-5, 5), urange(-5, 5))); int m = 30 + (int)R->below(300); for (int j = 0; j < m; j++) { vec3 q = c[R->below(kc)]; pts.push_back(q + vec3(urange(-1e-3, 1e-3), urange(-1e-3, 1e-3), urange(-1e-3, 1e-3))); } h = Manifold::Hull(pts); }
     else if (which == 3) { kind = "manifold"; Manifold s = Manifold::Sphere(urange(0.5, 2), 4 * (1 + (int)R->below(6))).Rotate(urange(0, 90), urange(0, 90), urange(0, 90)) + Manifold::Cube(vec3(urange(0.5, 3), urange(0.5, 3), urange(0.5, 3)), true).Rotate(urange(0, 90), urange(0, 90), 0).Translate(vec3(urange(-2, 2), urange(-2, 2), urange(-2, 2))); MeshGL64 g = s.GetMeshGL64(); for (size_t v = 0; v < g.NumVert(); v++) pts.push_back(vec3(g.vertProperties[v * g.numProp], g.vertProperties[v * g.numProp + 1], g.vertProperties[v * g.numProp + 2])); h = s.Hull(); }
@@ -534,7 +544,38 @@ static void minkCase(int idx, bool inset, bool wantAConvex, bool wantBConvex) {
     // unchanged tree the two volumes agree to a few 1e-6 relative (worst seen 4.6e-6 on a 512-hull non-convex pair).
     // The volume comparison is a coarse sanity test (1e-4 relative); the point classification below carries the clause.
     const double volAllow = 1e-4 * (1e-2 + std::fabs(vf));
-    if (std::fabs(vr - vf) > volAllow) { std::ostringstream s; s.precision(12); s << "dispatch-volume: real result has volume " << vr << ", the composition the model's plan describes (" << desc << ") has " << vf; fail(s.str()); }
+    if (std::fabs(vr - vf) > volAllow) {
+      // Arbitrate with the definition before blaming the real code: the reference is itself a union of up to thousands of hulls with
+      // massively coplanar faces (for axis-aligned operands: the coincident regime of the C02 known finding) and can be the wrong one.
+      // Every piece of the symmetric difference gets an interior point x judged by  x in A+B <=> A meets x-B  (sum), resp.
+      // x in A-B => x+B inside A  (difference; only soundness is a clause of the property).
+      const double s3 = (double)(scale * scale * scale);
+      Manifold negB = B.Scale(vec3(-1.0));
+      int realWrong = 0, refWrong = 0, undecided = 0; std::string where;
+      for (int side = 0; side < 2; side++) {
+        Manifold dd = side == 0 ? Ref - Rr : Rr - Ref;     // side 0: in the reference only; side 1: in the real result only
+        for (auto& piece : dd.Decompose()) {
+          if (piece.Volume() < 0.05 * volAllow) continue;
+          TMesh tp = toMesh(piece);
+          std::vector<V3> q = interiorSamples(tp, 1, 0, 4000);
+          if (q.empty()) { undecided++; continue; }
+          const V3 x = q[0];
+          if ((!tr.t.empty() && distSurf(tr, x) < 1e-6L * scale) || (!tf.t.empty() && distSurf(tf, x) < 1e-6L * scale)) { undecided++; continue; }
+          bool inReal = !tr.t.empty() && inside(tr, x);
+          int truth = -1;   // 1: x belongs to the defined set, 0: it does not, -1: too close to call
+          if (!inset) { Manifold xB = negB.Translate(toVec(x)); double vol = (A ^ xB).Volume(); if (vol > 1e-9 * s3) truth = 1; else if (vol == 0 && A.MinGap(xB, 1e-3 * (double)scale) > 1e-6 * (double)scale) truth = 0; }
+          else { double vol = (B.Translate(toVec(x)) - A).Volume(); if (vol > 1e-9 * s3) truth = 0; else truth = -1; if (vol == 0 && !inReal) truth = 2; }   // 2: missing from an erosion: completeness is not a clause
+          if (truth == -1) { undecided++; continue; }
+          if (truth == 2) { refWrong++; continue; }
+          if ((truth == 1) != inReal) { realWrong++; if (where.empty()) where = pstr(x) + (truth == 1 ? " belongs to the defined set but is outside the real result" : " does not belong to the defined set but is inside the real result"); }
+          else refWrong++;
+        }
+      }
+      std::ostringstream s; s.precision(12);
+      if (realWrong) { s << "dispatch-volume: real result has volume " << vr << ", the composition the model's plan describes (" << desc << ") has " << vf << "; by the definition the REAL result is wrong: " << where; fail(s.str()); }
+      else if (refWrong && !undecided) stats["reference_union_wrong_real_right"]++;
+      else { s << "dispatch-volume: real result has volume " << vr << ", the composition the model's plan describes (" << desc << ") has " << vf << " and the definition could not decide " << undecided << " piece(s) of their difference"; fail(s.str()); }
+    }
     V3 lo, hi;
     for (int k = 0; k < 3; k++) { lo[k] = std::min(tr.t.empty() ? tf.lo[k] : tr.lo[k], tf.t.empty() ? tr.lo[k] : tf.lo[k]); hi[k] = std::max(tr.t.empty() ? tf.hi[k] : tr.hi[k], tf.t.empty() ? tr.hi[k] : tf.hi[k]); }
     if (!(tr.t.empty() && tf.t.empty()))
@@ -651,7 +692,7 @@ int main(int argc, char** argv) {
   const char* only = getenv("C16_ONLY");
   std::string o = std::string(" ") + (only ? only : "hull hullf fixed mink") + " ";
   if (o.find(" hull ") != std::string::npos) hullCases(nHull);
-  if (o.find(" hullf ") != std::string::npos) hullFloatCases(std::max(5, nHull / 4));
+  if (o.find(" hullf ") != std::string::npos) hullFloatCases(std::max(14, nHull));
   if (o.find(" fixed ") != std::string::npos) fixedCases();
   if (o.find(" mink ") != std::string::npos) {
     double tEnd = now() + (hz::thorough() ? 900 : 75);
